@@ -621,39 +621,6 @@ impl World for Vw {
 }
 
 fn main() {
-    if std::env::var("C13_PROF").is_ok() {
-        for seed in 0..2 {
-            let w = Vw { flavour: Flavour::Wrapper, thorough: false, seed };
-            let t = std::time::Instant::now();
-            for _ in 0..200 {
-                let _ = w.fresh(seed);
-            }
-            eprintln!("fresh({seed}): {:?}", t.elapsed() / 200);
-            let (i, m) = w.fresh(seed);
-            let mut st = Stats::default();
-            let t = std::time::Instant::now();
-            for _ in 0..200 {
-                w.check(&i, &m, &mut st, &Op::Advance(0)).unwrap();
-            }
-            eprintln!("check({seed}): {:?}", t.elapsed() / 200);
-            let t = std::time::Instant::now();
-            for _ in 0..1000 {
-                let _ = view(&i.e, &i.c, "get_votes_at_checkpoint", (i.u[0].clone(), 100u32).into_val(&i.e));
-            }
-            eprintln!("refused view: {:?}", t.elapsed() / 1000);
-            let t = std::time::Instant::now();
-            for _ in 0..1000 {
-                let _ = view(&i.e, &i.c, "get_votes_at_checkpoint", (i.u[0].clone(), 9u32).into_val(&i.e));
-            }
-            eprintln!("ok view: {:?}", t.elapsed() / 1000);
-            let t = std::time::Instant::now();
-            for _ in 0..1000 {
-                let _ = envx::storage_digest(&i.e, true);
-            }
-            eprintln!("digest: {:?}", t.elapsed() / 1000);
-        }
-        return;
-    }
     main_with(
         "C13",
         "model_checking",
@@ -662,39 +629,36 @@ fn main() {
             let th = tier == Tier::Thorough;
             // (flavour, seed, depth, wall cap in s). Measured cost per transition: ~0.7 ms from the
             // empty seed, ~3 ms from the long-history seed (15-17 replayed calls + ~45 queries).
+            // Whole plan: quick ~110 CPU-s (~100k transitions), thorough ~4000 CPU-s (~3.5M
+            // transitions); the caps only bite on a machine that is busy with other work (their
+            // sums, 34 s and 540 s, leave room for the engine's per-chunk overshoot).
             use Flavour::*;
             let plan: Vec<(Flavour, usize, usize, u64)> = if th {
                 vec![
-                    (Wrapper, 0, 5, 120),
-                    (Wrapper, 1, 4, 150),
-                    (Wrapper, 2, 3, 10),
-                    (WrapperSpender, 0, 4, 15),
-                    (WrapperSpender, 1, 3, 20),
-                    (Example, 0, 4, 20),
-                    (Example, 1, 3, 15),
-                    (Nft, 0, 6, 130),
+                    (Wrapper, 0, 5, 70),
+                    (Wrapper, 1, 4, 160),
+                    (Wrapper, 2, 3, 6),
+                    (WrapperSpender, 0, 4, 20),
+                    (WrapperSpender, 1, 3, 25),
+                    (Example, 0, 4, 12),
+                    (Example, 1, 3, 18),
+                    (Nft, 0, 6, 145),
                     (Nft, 1, 4, 70),
-                    (NftSeq, 0, 4, 8),
-                    (NftSeq, 1, 3, 10),
+                    (NftSeq, 0, 4, 6),
+                    (NftSeq, 1, 3, 8),
                 ]
             } else {
                 vec![
-                    (Wrapper, 0, 4, 8),
-                    (Wrapper, 1, 3, 9),
+                    (Wrapper, 0, 4, 7),
+                    (Wrapper, 1, 3, 8),
                     (WrapperSpender, 0, 3, 3),
-                    (WrapperSpender, 1, 2, 3),
-                    (Example, 0, 3, 3),
-                    (Example, 1, 2, 3),
-                    (Nft, 0, 4, 5),
-                    (Nft, 1, 3, 5),
+                    (WrapperSpender, 1, 2, 2),
+                    (Example, 0, 3, 2),
+                    (Example, 1, 2, 2),
+                    (Nft, 0, 4, 4),
+                    (Nft, 1, 3, 4),
                     (NftSeq, 0, 3, 2),
                 ]
-            };
-            let plan = if let Ok(c) = std::env::var("C13_CAL") {
-                let x: Vec<usize> = c.split(',').map(|t| t.parse().unwrap()).collect();
-                vec![([Wrapper, WrapperSpender, Example, Nft, NftSeq][x[0]], x[1], x[2], 3000u64)]
-            } else {
-                plan
             };
             for (flavour, seed, depth, wall) in plan {
                 r.world(&Vw { flavour, thorough: th, seed }, &Bounds::new(depth, wall));
